@@ -213,6 +213,7 @@ static inline Song genSong(Rng &r, const SongOpts &o, UniqueTags *tagsOut = NULL
                 {
                 case 0: // note on
                     e.status = 0x90; e.ch = (uint8_t)ch; e.d1 = (uint8_t)r.range(12, 110); e.d2 = (uint8_t)r.range(1, 127);
+                    if(r.chance(0.04)) e.d1 = (uint8_t)r.pick<int>({ 0, 1, 126, 127 });   // the ends of the key range
                     if(o.smallAlphabet) { e.ch = (uint8_t)r.pick<int>({ 0, 1, 9 }); e.d1 = (uint8_t)r.pick<int>({ 36, 40, 60, 62, 64, 67 }); }
                     if(!struck.empty() && r.chance(0.35)) { size_t k = r.below(struck.size()); e.ch = (uint8_t)struck[k].first; e.d1 = (uint8_t)struck[k].second; }   // same key again
                     ok = tags.take(((uint64_t)0x90 << 32) | ((uint64_t)e.ch << 16) | ((uint64_t)e.d1 << 8) | e.d2);
